@@ -38,7 +38,10 @@ SITE_EMPTYPSK = ("internal/flight/flight12/flight3handler.go handleServerKeyExch
 SITE_PSKONLY = "config.go effectiveProtocolVersionRange / internal/flight/flight13 (DTLS 1.3 has no PSK mode)"
 MON = "established although the peer lacks the required credential"
 DEVIATION = {"scheme_confusion": "signature-scheme-confusion", "server_name": "ip-literal-server-name-not-verified",
-             "empty_psk": "empty-pre-shared-key", "psk_only_13": "psk-only-client-dtls13-certificate-fallback"}
+             "empty_psk": "empty-pre-shared-key", "psk_only_13": "psk-only-client-dtls13-certificate-fallback",
+             "ack_all_silent": "acks-server-flight-and-goes-silent", "ack_part_silent": "acks-server-flight-and-goes-silent",
+             "ack_all_nocert": "acks-server-flight-and-goes-silent"}
+SITE_ACK = "internal/handshake/fsm13.go transitionAfterACK (server: a complete ACK of Flight 4 is not the end of the handshake)"
 IP_NAMES = {"192.0.2.10": "ip4", "2001:db8::10": "ip6"}
 
 
@@ -68,6 +71,12 @@ def lacking(s):
     r, t = s["rogue"], s["tamper"]
     if s["vc"] == "reject":
         return "VerifyConnection rejects"
+    if r in ("ack_all_silent", "ack_part_silent"):
+        # whatever the client-auth policy (NoClientCert included): no Finished, nothing proved
+        return ("the client never sent its final flight (no Finished, no certificate): it only acknowledged %s of the "
+                "server's flight and went silent" % ("every record" if r == "ack_all_silent" else "one record"))
+    if r == "ack_all_nocert":
+        return lacking(dict(s, rogue="no_cert"))
     if r == "server_name":
         if not s["skip"] and not name_ok(s):
             return "certificate (valid for %s) is not valid for the configured server name %s" % (s["scert"], s["sname"])
@@ -138,6 +147,10 @@ def case_term(o):
     ob = obs_term(o)
     if ob is None:
         return None
+    if r.startswith("ack_"):
+        # the flight of a certificate-less client, with or without its Finished; the ACK covers all / one record
+        base = case_term(dict(o, scn=dict(s, rogue="no_cert")))
+        return base.replace("(CFlight13 ", "(CPending13 %s %s " % (cbool(r == "ack_all_nocert"), cbool(r != "ack_part_silent")), 1)
     has_vpc, vpc_ok = s["vpc"] != "", s["vpc"] != "reject"
     has_vc, vc_ok = s["vc"] != "", s["vc"] != "reject"
     psk = s["suite"] != "cert"
@@ -228,6 +241,8 @@ def site_of(s):
         return SITE_EMPTYPSK
     if s["rogue"] == "psk_only_13":
         return SITE_PSKONLY
+    if s["rogue"].startswith("ack_"):
+        return SITE_ACK
     if s["ver"] == 13:
         return SITE_F6
     return SITE_12C if s["honest"] == "client" else SITE_12S
@@ -537,7 +552,9 @@ def run(chk):
              "the presented certificate {ecdsa, rsa, ed25519} x claimed scheme family {ed25519, ecdsa, rsa} x message "
              "(ServerKeyExchange, CertificateVerify 1.2, CertificateVerify 1.3 of either side) x policy / InsecureSkipVerify, "
              "signature forged for the empty digest from the public key; refused-resume: two connections, {cert, PSK} x 5 "
-             "policies x Finished sent / withheld in the first x EMS on / off. Non-trivial = the peer lacks "
+             "policies x Finished sent / withheld in the first x EMS on / off; DTLS 1.3 client that answers the server's flight "
+             "with an ACK only (all records / one record, then silent; all records, then a final flight without certificate) x "
+             "5 policies. Non-trivial = the peer lacks "
              "the credential the honest side's policy requires; distinct by scenario id.",
         assumptions=["views are abstract: x509 path validation (Go crypto/x509), signature schemes and AEAD are not modelled; "
                      "a view field is the truth value of one such primitive check on the received flight",
